@@ -24,6 +24,7 @@ import (
 
 	v1 "github.com/fatedier/frp/pkg/config/v1"
 	"github.com/fatedier/frp/pkg/util/tcpmux"
+	"github.com/fatedier/frp/pkg/util/verifhook"
 	"github.com/fatedier/frp/pkg/util/vhost"
 )
 
@@ -58,6 +59,7 @@ func (tmgc *TCPMuxGroupCtl) Listen(
 		tmgc.groups[group] = tcpMuxGroup
 	}
 	tmgc.mu.Unlock()
+	verifhook.At("group.lookedup", "kind", "tcpmux", "group", group, "obj", verifhook.ID(tcpMuxGroup), "created", !ok, "member", routeConfig.Domain)
 
 	switch v1.TCPMultiplexerType(multiplexer) {
 	case v1.TCPMultiplexerHTTPConnect:
@@ -110,6 +112,9 @@ func (tmg *TCPMuxGroup) HTTPConnectListen(
 ) (ln *TCPMuxGroupListener, err error) {
 	tmg.mu.Lock()
 	defer tmg.mu.Unlock()
+	defer func() {
+		verifhook.At("group.join", "kind", "tcpmux", "group", group, "obj", verifhook.ID(tmg), "member", "", "ln", verifhook.ID(ln), "n", len(tmg.lns), "err", err, "key", groupKey, "param", routeConfig.Domain+"|"+routeConfig.RouteByHTTPUser+"|"+routeConfig.Username+"|"+routeConfig.Password, "port", 0)
+	}()
 	if len(tmg.lns) == 0 {
 		// the first listener, listen on the real address
 		tcpMuxLn, errRet := tmg.ctl.tcpMuxHTTPConnectMuxer.Listen(ctx, &routeConfig)
@@ -154,6 +159,7 @@ func (tmg *TCPMuxGroup) worker() {
 		if err != nil {
 			return
 		}
+		verifhook.At("group.handoff", "kind", "tcpmux", "obj", verifhook.ID(tmg), "u", c.RemoteAddr().String())
 		err = gerr.PanicToError(func() {
 			tmg.acceptCh <- c
 		})
@@ -171,6 +177,9 @@ func (tmg *TCPMuxGroup) Accept() <-chan net.Conn {
 func (tmg *TCPMuxGroup) CloseListener(ln *TCPMuxGroupListener) {
 	tmg.mu.Lock()
 	defer tmg.mu.Unlock()
+	defer func() {
+		verifhook.At("group.leave", "kind", "tcpmux", "group", tmg.group, "obj", verifhook.ID(tmg), "ln", verifhook.ID(ln), "n", len(tmg.lns))
+	}()
 	for i, tmpLn := range tmg.lns {
 		if tmpLn == ln {
 			tmg.lns = append(tmg.lns[:i], tmg.lns[i+1:]...)
